@@ -348,6 +348,8 @@ func (c *corruptExec) runCase(base string, f corruptFault, mode string) {
 		for k, key := range plan.Keys {
 			r := cl.Do(cmdGet(string(key)))
 			switch {
+			case r.Budget:
+				results[k].err = ""
 			case r.Malformed != "" || r.Closed || r.NoReply:
 				results[k].err = "protocol: " + r.String()
 			case r.Status != "END":
